@@ -18,6 +18,8 @@ func TestMain(m *testing.M) {
 		return
 	}
 
+	registerGobTypes()
+
 	go watchdog()
 
 	code := m.Run()
